@@ -344,8 +344,8 @@ func (fr *Frame) execInstr(in ssa.Instruction, st *State) *State {
 		a := MkLoc(o, IntLit(0))
 		fr.zeroInit(st, derefType(x.Type()), a)
 		fr.setReg(x, a)
-		if (!u.allocEscapes(x) || u.writeOnceCell(x)) && u.rec == nil {
-			u.localCells = append(u.localCells, localCell{addr: fr.regs[x], typ: derefType(x.Type())})
+		if wo := u.writeOnceCell(x); (!u.allocEscapes(x) || wo) && u.rec == nil {
+			u.localCells = append(u.localCells, localCell{addr: fr.regs[x], typ: derefType(x.Type()), writeOnce: wo})
 		}
 		switch x.Comment {
 		case "", "varargs", "slicelit", "complit", "makeslice", "new", "arraylit", "maplit":
